@@ -814,7 +814,16 @@ func reifyDuration(
 	var d time.Duration
 	var err error
 
-	switch v := val.(type) {
+	// a setting that is one reference takes the referenced value with its
+	// type: a number means seconds there as well
+	src := val
+	if dyn, ok := val.(*cfgDynamic); ok {
+		if v, err := dyn.getValue(opts.opts); err == nil && v != nil {
+			src = v
+		}
+	}
+
+	switch v := src.(type) {
 	case *cfgInt:
 		d = time.Duration(v.i) * time.Second
 	case *cfgUint:
